@@ -1,4 +1,5 @@
 import Req.Lemmas.C06Recv
+import Req.Lemmas.C06Acks
 /-!
 C06 — HTTP/2 connections respect everything the peer advertised: property theorems.
 
@@ -17,6 +18,7 @@ Nothing is assumed about the order or content of the peer's frames otherwise: RS
 SETTINGS changing windows up and down (negative windows included), WINDOW_UPDATE overflow, DATA
 outside the windows, HEADERS after END_STREAM … are all covered.
 -/
+set_option linter.unusedSimpArgs false
 namespace Req.Props.C06
 open Req.H2 Req.H2.Flow Req.H2.Conn Req.H2.Monitor Req.Lemmas.C06
 
@@ -60,5 +62,145 @@ example : ∀ op ∈ exampleOps, op.ok := by
 /-- the window goes negative (-10000, then -1) and the client sends exactly one byte once it is 1 -/
 example : (history (run exampleCfg exampleOps)).filterMap (fun e => match e with
     | .c (.data id len _) => some (id, len) | _ => none) = [(1, 16384), (1, 3616), (1, 1)] := by decide
+
+
+/-! ### stream identifiers -/
+
+/-- **stream_ids**: the streams the client has opened (one HEADERS frame each, seen by the
+strict peer in this order: `m.streams`) carry odd, strictly increasing ids — for every
+PRIORITY-frame fingerprint, including even, zero and descending ids. -/
+theorem stream_ids (cfg : Cfg) (hfix : cfg.fixes = Fixes.all) (ops : List Op) (hops : ∀ op ∈ ops, op.ok) :
+    let st := (run cfg ops).1
+    (st.streams.map (·.id)).Pairwise (· < ·) ∧ (∀ s ∈ st.streams, s.id % 2 = 1) ∧
+    ∃ m, Send.run Send.init (history (run cfg ops)) = .ok m ∧
+      m.streams.map (·.id) = st.streams.map (·.id) := by
+  unfold history run
+  obtain ⟨m, h1, h2⟩ := sim_runFrom ops hops (preface_run cfg) (sinv_init cfg hfix)
+  exact ⟨h2.sorted, h2.oddIds, m, h1, rels_ids h2.rel⟩
+
+/-- PRIORITY frames naming streams 9 and 4 (descending, the last one even): requests use 7, 9 -/
+example : ((run { exampleCfg with prio := [9, 4] }
+    [.peer (.settings []), .openStream 30 0 true, .openStream 30 0 true]).1.streams.map (·.id)) = [7, 9] := by decide
+
+/-! ### SETTINGS acknowledgements -/
+
+/-- **settings_acked**: in every run the client has written exactly one SETTINGS acknowledgement
+per SETTINGS frame of the peer (frames that are themselves a protocol violation — an
+INITIAL_WINDOW_SIZE above 2^31-1, answered by closing the connection — excepted), whatever else
+happened in between. -/
+theorem settings_acked (cfg : Cfg) (hfix : cfg.fixes = Fixes.all) (ops : List Op) (hops : ∀ op ∈ ops, op.ok) :
+    ackCount (history (run cfg ops)) = settingsCount (history (run cfg ops)) := by
+  have hrun : run cfg ops = runFrom (newConn cfg).1 ((newConn cfg).2.map Event.c) ops := rfl
+  rw [hrun]
+  unfold history
+  obtain ⟨m, h1, h2⟩ := sim_runFrom ops hops (preface_run cfg) (sinv_init cfg hfix)
+  have := pending_count _ h1
+  simp only [h2.pending, Send.init, List.length_nil] at this
+  omega
+
+example : ackCount (history (run exampleCfg exampleOps)) = 2 := by decide
+
+/-! ### WINDOW_UPDATE overflow -/
+
+/-- **window_update_overflow**: `outflow.add` (the `(sum > n) == (f.n > 0)` test on the wrapped
+`int32` sum) accepts an increment exactly when the true sum stays ≤ 2^31-1, and then stores the
+true sum. -/
+theorem window_update_overflow (w : Int) (inc : Nat) (hw : In32 w) (h1 : 1 ≤ inc) (h2 : inc ≤ 2147483647) :
+    addWindow w inc = if w + inc ≤ 2147483647 then some (w + inc) else none := by
+  rw [addWindow_spec w inc hw (by unfold In32; omega)]
+  unfold In32 at *
+  by_cases h : w + (inc : Int) ≤ 2147483647
+  · have : -2147483648 ≤ w + (inc : Int) ∧ w + (inc : Int) ≤ 2147483647 := by omega
+    simp [h, this]
+  · have : ¬ (-2147483648 ≤ w + (inc : Int) ∧ w + (inc : Int) ≤ 2147483647) := by omega
+    simp [h, this]
+
+example : addWindow 2147418112 65535 = some 2147483647 := by decide
+example : addWindow 2147418113 65535 = none := by decide
+example : addWindow (-5) 2147483647 = some 2147483642 := by decide
+
+/-- on the connection window an overflow closes the connection (FLOW_CONTROL_ERROR), on a stream
+window it resets the stream; no window is changed -/
+theorem window_update_overflow_conn (st : State) (inc : Nat) (hw : In32 st.connOut)
+    (h1 : 1 ≤ inc) (h2 : inc ≤ 2147483647) (hov : st.connOut + inc > 2147483647) :
+    peerWindowUpdate st 0 inc = ({ st with closed := true }, []) := by
+  have hne : ¬ inc = 0 := by omega
+  have : ¬ st.connOut + (inc : Int) ≤ 2147483647 := by omega
+  simp [peerWindowUpdate, hne, window_update_overflow st.connOut inc hw h1 h2, this, connError]
+
+/-! ### receive windows never go negative (the hypothesis of the bridging theorems) -/
+
+/-- **inflow_nonneg**: in every reachable state the connection-level receive window satisfies
+`0 ≤ avail`, `0 ≤ unsent`, `avail + unsent ≤ 2^31-1` — so `inflow.add` cannot overflow and the
+`uint32` conversions in `inflow.take` are exact. -/
+theorem inflow_nonneg (cfg : Cfg) (hfix : cfg.fixes = Fixes.all) (hcfg : cfg.ok)
+    (ops : List Op) (hops : ∀ op ∈ ops, op.ok) :
+    let st := (run cfg ops).1
+    0 ≤ st.connIn.avail ∧ 0 ≤ st.connIn.unsent ∧ st.connIn.avail + st.connIn.unsent ≤ 2147483647 := by
+  unfold run
+  obtain ⟨m, r, _, _, _, h4⟩ := joint_runFrom ops hops (preface_run cfg) (rpreface_run cfg hfix hcfg)
+    (sinv_init cfg hfix) (rinv_init cfg hfix hcfg)
+  exact ⟨h4.connOK.avail, h4.connOK.unsent, h4.connOK.sum⟩
+
+/-! ### the unchanged code: one counter-example per repair (replayed on the implementation by the
+directed scripts of the script lane) -/
+
+/-- a fingerprint that advertises SETTINGS_MAX_FRAME_SIZE = 1 MiB -/
+def cfgBigFrame (fx : Fixes) : Cfg :=
+  { settings := [(sMaxFrameSize, 1048576), (sInitialWindowSize, 4194304)], connFlow := 0, prio := [],
+    hdrPrio := false, maxHeaderList := 10485760, strict := false, fixes := fx }
+
+def opsUpload : List Op := [.peer (.settings []), .openStream 54 100000 true, .feed 1 0, .write 1]
+
+/-- unchanged code: a peer that advertised nothing receives a 65535-byte DATA frame -/
+theorem caller_max_frame_size_counterexample :
+    Monitor (history (run (cfgBigFrame ⟨false, true, true, true⟩) opsUpload)) = false ∧
+    (history (run (cfgBigFrame ⟨false, true, true, true⟩) opsUpload)).getLast? = some (.c (.data 1 65535 false)) ∧
+    Monitor (history (run (cfgBigFrame Fixes.all) opsUpload)) = true := by decide
+
+/-- a fingerprint that advertises a 6 MiB stream window and 16 MiB frames -/
+def cfgBigWindow (fx : Fixes) : Cfg :=
+  { settings := [(sInitialWindowSize, 6291456), (sMaxFrameSize, 16777215)], connFlow := 15663105, prio := [],
+    hdrPrio := false, maxHeaderList := 10485760, strict := false, fixes := fx }
+
+/-- the peer sends 5 MiB on one stream: inside the 6 MiB it was granted -/
+def opsDownload : List Op :=
+  [.peer (.settings []), .openStream 51 0 true, .peer (.headers 1 false),
+   .peer (.data 1 1048576 0 false), .peer (.data 1 1048576 0 false), .peer (.data 1 1048576 0 false),
+   .peer (.data 1 1048576 0 false), .peer (.data 1 1048576 0 false)]
+
+/-- unchanged code: the client closes the connection (FLOW_CONTROL_ERROR) on a peer that stayed
+inside the advertised window; repaired code: it does not -/
+theorem stream_receive_window_counterexample :
+    (run (cfgBigWindow ⟨true, false, true, true⟩) opsDownload).1.closed = true ∧
+    (run (cfgBigWindow Fixes.all) opsDownload).1.closed = false := by decide
+
+/-- a PRIORITY fingerprint that names an even stream -/
+def cfgPrioEven (fx : Fixes) : Cfg :=
+  { settings := [], connFlow := 0, prio := [2], hdrPrio := false, maxHeaderList := 10485760, strict := false,
+    fixes := fx }
+
+def opsOpen : List Op := [.peer (.settings []), .openStream 51 0 true]
+
+/-- unchanged code: the first request uses stream 4 -/
+theorem even_stream_id_counterexample :
+    Monitor (history (run (cfgPrioEven ⟨true, true, false, true⟩) opsOpen)) = false ∧
+    (history (run (cfgPrioEven ⟨true, true, false, true⟩) opsOpen)).getLast? = some (.c (.headers 4 51 true true)) ∧
+    (history (run (cfgPrioEven Fixes.all) opsOpen)).getLast? = some (.c (.headers 5 51 true true)) := by decide
+
+/-- a header priority (all three browser presets) and a header block of 20000 bytes -/
+def cfgHdrPrio (fx : Fixes) : Cfg :=
+  { settings := [], connFlow := 0, prio := [], hdrPrio := true, maxHeaderList := 10485760, strict := false,
+    fixes := fx }
+
+def opsBigHeaders : List Op := [.peer (.settings []), .openStream 20000 0 true]
+
+/-- unchanged code: a HEADERS frame of 16389 bytes for a peer whose limit is 16384 -/
+theorem headers_priority_frame_size_counterexample :
+    Monitor (history (run (cfgHdrPrio ⟨true, true, true, false⟩) opsBigHeaders)) = false ∧
+    (history (run (cfgHdrPrio ⟨true, true, true, false⟩) opsBigHeaders)).drop 4 =
+      [.c (.headers 1 16389 true false), .c (.continuation 1 3616 true)] ∧
+    (history (run (cfgHdrPrio Fixes.all) opsBigHeaders)).drop 4 =
+      [.c (.headers 1 16384 true false), .c (.continuation 1 3621 true)] := by decide
 
 end Req.Props.C06
